@@ -10,6 +10,7 @@ import (
 	"time"
 
 	"github.com/ethereum/go-ethereum/p2p/enode"
+	"github.com/ethereum/go-ethereum/rlp"
 	"github.com/zen-eth/shisui/portalwire"
 	pingext "github.com/zen-eth/shisui/portalwire/ping_ext"
 )
@@ -38,7 +39,7 @@ func genC20(r *prng) *plan {
 	for i := 0; i < n; i++ {
 		switch {
 		case np > 0 && r.chance(65):
-			p.Ops = append(p.Ops, opSpec{K: "report", N: []int64{int64(r.intn(np)), int64(r.intn(2)), int64(r.intn(4)), int64(r.intn(8)), int64(r.intn(2))}})
+			p.Ops = append(p.Ops, opSpec{K: "report", N: []int64{int64(r.intn(np)), int64(r.intn(2)), int64(r.intn(4)), int64(r.intn(8)), int64(r.intn(2)), int64(r.intn(5))}})
 		default:
 			p.Ops = append(p.Ops, opSpec{K: "gossip", N: []int64{int64(r.intn(2)), int64(r.intn(4)), int64(1 + r.intn(3))}})
 		}
@@ -78,6 +79,8 @@ type c20peer struct {
 	radius     *big.Int // last reported radius per the harness model; nil = unknown
 	offers     [][][]byte
 	pongSet    bool
+	seqBump    uint64 // reports claim an ENR sequence number this much above the record the node holds
+	answerEnr  bool   // whether the FINDNODES(0) the node then sends is answered (with the unchanged record)
 	pongType   uint16
 	pongRadius *big.Int
 }
@@ -140,13 +143,20 @@ func runC20(seed uint64) {
 			case portalwire.PING:
 				if cp.pongSet {
 					pongType, pongRadius = cp.pongType, cp.pongRadius
-					return encPong(P.self().Seq(), pongType, encRadiusPayload(pongType, pongRadius))
+					return encPong(P.self().Seq()+cp.seqBump, pongType, encRadiusPayload(pongType, pongRadius))
 				}
 				if cp.radius != nil {
 					// liveness ping of the table: re-report the current radius (keeps the node in the table)
 					return encPong(P.self().Seq(), 0, encRadiusPayload(0, cp.radius))
 				}
 				return nil // a node that never reported a radius cannot answer without reporting one
+			case portalwire.FINDNODES:
+				// the node asks for the record behind a higher sequence number
+				if cp.answerEnr {
+					rec, _ := rlp.EncodeToBytes(P.self().Record())
+					return append([]byte{portalwire.NODES, 1, 5, 0, 0, 0}, sszLists([][]byte{rec})...)
+				}
+				return nil
 			case portalwire.OFFER:
 				ks, err := decOfferKeys(msg)
 				if err == nil {
@@ -203,19 +213,33 @@ func runC20(seed uint64) {
 			// from here until the verdict the puppet's radius IS the one being reported: a liveness ping of
 			// the table that lands in this window must not re-report the previous one
 			cp.pongSet, cp.pongType, cp.pongRadius = true, ptype, rad
+			// ENR sequence stories: the report claims a newer record than the node holds; the node asks for
+			// it and the request is answered, or fails. Either way the radius in the report is the latest.
+			cp.seqBump, cp.answerEnr = 0, true
+			settle := 20 * time.Millisecond
+			switch op.n(5) {
+			case 3:
+				cp.seqBump, settle = 1+uint64(op.n(3)), 200*time.Millisecond
+			case 4:
+				cp.seqBump, cp.answerEnr, settle = 1+uint64(op.n(3)), false, 3*time.Second
+			}
+			if cp.seqBump > 0 {
+				w.probe(fmt.Sprintf("report_newer_seq_answered_%v", cp.answerEnr))
+			}
 			if via == 0 {
 				_, err = w.call("ping", 5*time.Second, func() error {
-					_, e := cp.pup.talk(V.self(), netID, encPing(cp.pup.self().Seq(), ptype, encRadiusPayload(ptype, rad)))
+					_, e := cp.pup.talk(V.self(), netID, encPing(cp.pup.self().Seq()+cp.seqBump, ptype, encRadiusPayload(ptype, rad)))
 					return e
 				})
-				w.runFor(20 * time.Millisecond) // ping processing is asynchronous
+				w.runFor(settle) // ping processing is asynchronous
 			} else {
 				_, err = w.call("vping", 5*time.Second, func() error {
 					_, e := vp.api.Ping(cp.pup.enr(), nil, nil)
 					return e
 				})
-				w.runFor(20 * time.Millisecond)
+				w.runFor(settle)
 			}
+			cp.seqBump, cp.answerEnr = 0, true
 			_ = known
 			// both paths (re)add the node before looking it up: what matters is membership afterwards
 			counted := supported[ptype] && inTableOrRepl(cp.node.ID())
